@@ -841,6 +841,10 @@ func (e *evalEnv) call(n *Node) *Val {
 		x := e.eval(args[0])
 		k := e.intOf(e.eval(args[1]))
 		return &Val{T: types.Typ[types.Int], L: []string{fr.vc.sumWidth(name, e.st, x, k)}}
+	case "werr":
+		// the error returned by the last Write of the caller's writer (ghost)
+		errT := types.Universe.Lookup("error").Type()
+		return &Val{T: errT, L: []string{fr.ghostOf(e.st, "$werr_t"), fr.ghostOf(e.st, "$werr_v")}}
 	case "tainted":
 		// byte j of x is marked secret in the ghost taint map (information-flow mode)
 		x := e.eval(args[0])
@@ -1009,4 +1013,11 @@ func (e *evalEnv) boundGround() bool {
 		}
 	}
 	return true
+}
+
+func (fr *Frame) ghostOf(st *State, name string) string {
+	if t, ok := st.ghost[name]; ok {
+		return t
+	}
+	return fr.vc.ghostInit(name)
 }
